@@ -325,7 +325,83 @@ pub fn run(op: &str, case: &Value) -> Result<Value> {
             let _ = std::fs::remove_dir_all(&dir);
             r
         }
+        "wire" => {
+            let ty = case["type"].as_str().ok_or_else(|| anyhow!("type"))?;
+            let bytes = unhex(case["hex"].as_str().ok_or_else(|| anyhow!("hex"))?)?;
+            wire(ty, &bytes)?
+        }
+        "enum_table" => {
+            let mut out = serde_json::Map::new();
+            macro_rules! tab {
+                ($name:literal, $t:ty) => {{
+                    let mut rows = vec![];
+                    for i in -2i32..10 {
+                        match <$t>::try_from(i) {
+                            Ok(v) => rows.push(json!([i, v.as_str_name(), <$t>::from_str_name(v.as_str_name()).map(|x| x as i32)])),
+                            Err(_) => rows.push(json!([i, Value::Null, Value::Null])),
+                        }
+                    }
+                    out.insert($name.to_string(), Value::Array(rows));
+                }};
+            }
+            tab!("ommx.v1.Equality", v1::Equality);
+            tab!("ommx.v1.DecisionVariable.Kind", v1::decision_variable::Kind);
+            tab!("ommx.v1.Instance.Sense", v1::instance::Sense);
+            tab!("ommx.v1.Optimality", v1::Optimality);
+            tab!("ommx.v1.Relaxation", v1::Relaxation);
+            json!({"ok": Value::Object(out)})
+        }
         _ => bail!("unknown op {op}"),
+    })
+}
+
+fn wire_as<M: prost::Message + Default + PartialEq>(bytes: &[u8]) -> Value {
+    match M::decode(bytes) {
+        Err(e) => json!({"err": format!("{e}")}),
+        Ok(m) => {
+            let again = m.encode_to_vec();
+            let stable = M::decode(again.as_slice()).map(|m2| m2 == m).unwrap_or(false);
+            let mut c = M::decode(bytes).unwrap();
+            c.clear();
+            json!({"ok": {"hex": hex(&again), "debug": format!("{m:?}"), "stable": stable, "len_ok": m.encoded_len() == again.len(), "clear_is_default": c == M::default()}})
+        }
+    }
+}
+
+fn wire(ty: &str, b: &[u8]) -> Result<Value> {
+    Ok(match ty {
+        "ommx.v1.Linear" => wire_as::<v1::Linear>(b),
+        "ommx.v1.Linear.Term" => wire_as::<v1::linear::Term>(b),
+        "ommx.v1.Monomial" => wire_as::<v1::Monomial>(b),
+        "ommx.v1.Polynomial" => wire_as::<v1::Polynomial>(b),
+        "ommx.v1.Quadratic" => wire_as::<v1::Quadratic>(b),
+        "ommx.v1.Function" => wire_as::<v1::Function>(b),
+        "ommx.v1.Constraint" => wire_as::<v1::Constraint>(b),
+        "ommx.v1.EvaluatedConstraint" => wire_as::<v1::EvaluatedConstraint>(b),
+        "ommx.v1.RemovedConstraint" => wire_as::<v1::RemovedConstraint>(b),
+        "ommx.v1.OneHot" => wire_as::<v1::OneHot>(b),
+        "ommx.v1.SOS1" => wire_as::<v1::Sos1>(b),
+        "ommx.v1.ConstraintHints" => wire_as::<v1::ConstraintHints>(b),
+        "ommx.v1.Bound" => wire_as::<v1::Bound>(b),
+        "ommx.v1.DecisionVariable" => wire_as::<v1::DecisionVariable>(b),
+        "ommx.v1.Parameters" => wire_as::<v1::Parameters>(b),
+        "ommx.v1.Instance" => wire_as::<v1::Instance>(b),
+        "ommx.v1.Instance.Description" => wire_as::<v1::instance::Description>(b),
+        "ommx.v1.Parameter" => wire_as::<v1::Parameter>(b),
+        "ommx.v1.ParametricInstance" => wire_as::<v1::ParametricInstance>(b),
+        "ommx.v1.State" => wire_as::<v1::State>(b),
+        "ommx.v1.Solution" => wire_as::<v1::Solution>(b),
+        "ommx.v1.Infeasible" => wire_as::<v1::Infeasible>(b),
+        "ommx.v1.Unbounded" => wire_as::<v1::Unbounded>(b),
+        "ommx.v1.Result" => wire_as::<v1::Result>(b),
+        "ommx.v1.Samples" => wire_as::<v1::Samples>(b),
+        "ommx.v1.Samples.SamplesEntry" => wire_as::<v1::samples::SamplesEntry>(b),
+        "ommx.v1.SampledValues" => wire_as::<v1::SampledValues>(b),
+        "ommx.v1.SampledValues.SampledValuesEntry" => wire_as::<v1::sampled_values::SampledValuesEntry>(b),
+        "ommx.v1.SampledDecisionVariable" => wire_as::<v1::SampledDecisionVariable>(b),
+        "ommx.v1.SampledConstraint" => wire_as::<v1::SampledConstraint>(b),
+        "ommx.v1.SampleSet" => wire_as::<v1::SampleSet>(b),
+        _ => bail!("unknown message type {ty}"),
     })
 }
 
